@@ -63,6 +63,26 @@ func main() {
 				s.Do("joinend", ringh.U(j))
 				members = all
 			}
+			// (a') a lookup at a joiner whose join request is still on the way (Joining, no pointers yet)
+			if len(ids) > 0 {
+				jp := (hlib.Pick(rng, members) + 1 + rng.U64()%1000) % ringh.M
+				fresh := true
+				for _, x := range append(append([]uint64{}, members...), ids...) {
+					fresh = fresh && x != jp
+				}
+				if fresh {
+					s.Do("new", ringh.U(jp))
+					key := hlib.Pick(rng, ringh.InterestingKeys(rng, members, 4))
+					lhs := []string{"joinprobe", ringh.U(jp), ringh.U(hlib.Pick(rng, members)), ringh.U(key)}
+					run.Begin(strings.Join(lhs, " "))
+					res := s.Do(lhs...)
+					run.Case(hlib.F("joinprobe:%v|%d|%d", members, jp, key))
+					if strings.HasSuffix(res, ";ok") {
+						members = append(members, jp)
+					}
+					run.Count("joinprobe")
+				}
+			}
 			// (b) constructed finger states on a random member
 			for rep := 0; rep < 2; rep++ {
 				m := hlib.Pick(rng, members)
